@@ -1126,11 +1126,12 @@ func (e *MetaCDC) startReplicateAPIEvent(replicateCtx context.Context, entity *R
 				if replicateAPIEvent.EventType == api.ReplicateError {
 					log.Warn("receive the error event", zap.Any("event", replicateAPIEvent), zap.String("task_id", taskID))
 					_ = e.pauseTaskWithReason(taskID, "fail to read the replicate event", []meta.TaskState{})
-					return
+					continue
 				}
 				if !e.isRunningTask(taskID) {
+					// the loop is shared by all tasks of the target, skip the event of the task which has been paused or deleted
 					log.Warn("not running task", zap.Any("event", replicateAPIEvent), zap.String("task_id", taskID))
-					return
+					continue
 				}
 				if replicateAPIEvent.EventType == api.ReplicateCreateCollection {
 					collectionID := replicateAPIEvent.CollectionInfo.ID
@@ -1155,8 +1156,12 @@ func (e *MetaCDC) startReplicateAPIEvent(replicateCtx context.Context, entity *R
 								zap.String("task_id", taskID),
 								zap.Error(err))
 							_ = e.pauseTaskWithReason(taskID, "fail to update start task position, err:"+err.Error(), []meta.TaskState{})
-							return
+							break
 						}
+					}
+					if !e.isRunningTask(taskID) {
+						// has been paused because of the error above
+						continue
 					}
 				}
 				err := entity.writerObj.HandleReplicateAPIEvent(replicateCtx, replicateAPIEvent)
@@ -1165,7 +1170,7 @@ func (e *MetaCDC) startReplicateAPIEvent(replicateCtx context.Context, entity *R
 						zap.String("task_id", taskID),
 						zap.Error(err))
 					_ = e.pauseTaskWithReason(taskID, "fail to handle the replicate event, err: "+err.Error(), []meta.TaskState{})
-					return
+					continue
 				}
 				if replicateAPIEvent.EventType == api.ReplicateDropCollection {
 					collectionID := replicateAPIEvent.CollectionInfo.ID
@@ -1179,7 +1184,7 @@ func (e *MetaCDC) startReplicateAPIEvent(replicateCtx context.Context, entity *R
 							zap.String("task_id", taskID),
 							zap.Error(err))
 						_ = e.pauseTaskWithReason(taskID, "fail to delete collection position, err:"+err.Error(), []meta.TaskState{})
-						return
+						continue
 					}
 				}
 				metrics.APIExecuteCountVec.WithLabelValues(taskID, replicateAPIEvent.EventType.String()).Inc()
@@ -1225,8 +1230,15 @@ func (e *MetaCDC) startReplicateDMLMsg(replicateCtx context.Context, entity *Rep
 		}
 		replicateMsgsFunc := func(replicateMsgs []*api.ReplicateMsg) error {
 			positionInfos := make(map[string]*UpdatePositionInfo)
+			// the batch and the channel are shared by all tasks of the target, the failure of a task should only pause this task,
+			// and the packs and positions of other tasks should be handled normally
+			failedTasks := make(map[string]struct{})
 			for _, replicateMsg := range replicateMsgs {
 				taskID := replicateMsg.TaskID
+				if _, failed := failedTasks[taskID]; failed {
+					// the task has been paused, its following packs will be read again after it's resumed
+					continue
+				}
 				msgPack := replicateMsg.MsgPack
 				streamChannelName := replicateMsg.PChannelName
 				targetPChannel := msgPack.EndPositions[0].GetChannelName()
@@ -1242,7 +1254,8 @@ func (e *MetaCDC) startReplicateDMLMsg(replicateCtx context.Context, entity *Rep
 						zap.Error(err),
 					)
 					_ = e.pauseTaskWithReason(taskID, "fail to handle replicate message, err:"+err.Error(), []meta.TaskState{})
-					return err
+					failedTasks[taskID] = struct{}{}
+					continue
 				}
 				msgTime, _ := tsoutil.ParseHybridTs(msgPack.EndTs)
 				replicateMetric(taskID, streamChannelName, msgPack, metrics.OPTypeWrite)
@@ -1290,7 +1303,6 @@ func (e *MetaCDC) startReplicateDMLMsg(replicateCtx context.Context, entity *Rep
 				if err != nil {
 					log.Warn("fail to update the collection position", zap.Any("packs", replicateMsgs), zap.Error(err))
 					_ = e.pauseTaskWithReason(updatePositionInfo.taskID, "fail to update task position, err:"+err.Error(), []meta.TaskState{})
-					return err
 				}
 			}
 			return nil
@@ -1319,13 +1331,14 @@ func (e *MetaCDC) startReplicateDMLMsg(replicateCtx context.Context, entity *Rep
 					return
 				}
 				if !e.isRunningTask(taskID) {
+					// the loop is shared by all tasks of the target, skip the pack of the task which has been paused or deleted
 					log.Warn("not running task", zap.Any("pack", replicateMsg), zap.String("task_id", taskID))
-					return
+					continue
 				}
 				msgPack := replicateMsg.MsgPack
 				if msgPack == nil {
 					log.Warn("the message pack is nil, the task may be stopping", zap.String("task_id", taskID))
-					return
+					continue
 				}
 				if replicateMsg.CollectionName == "" || replicateMsg.CollectionID == 0 {
 					log.Warn("fail to handle the replicate message",
@@ -1334,13 +1347,12 @@ func (e *MetaCDC) startReplicateDMLMsg(replicateCtx context.Context, entity *Rep
 						zap.String("task_id", taskID),
 					)
 					_ = e.pauseTaskWithReason(taskID, "fail to handle replicate message, invalid collection name or id", []meta.TaskState{})
-					return
+					continue
 				}
 				err := packer.Receive(replicateMsg, replicateMsgsFunc)
 				if err != nil {
+					// the failed task has been paused by the handler, keep the loop for the other tasks of the target
 					log.Warn("fail to pack the replicate message", zap.Any("pack", replicateMsg), zap.Error(err))
-					_ = e.pauseTaskWithReason(taskID, "fail to pack replicate message, err:"+err.Error(), []meta.TaskState{})
-					return
 				}
 			}
 		}
